@@ -293,6 +293,36 @@ def run(ctx: Ctx) -> int:
         ok = bool(slices) and all(isinstance(x.slice.lower, ast.Call) and call_leaf(x.slice.lower) == "len" and "dest" in ast.unparse(x.slice.lower) for x in slices) and not [c for c in calls_in(s_) if (call_leaf(c) or "").startswith("split_key")]
         ctx.oblige("C16.b", ok, s_, f"the {which} keys of a nested link lose exactly the class argument's dest prefix" if ok else f"the {which} keys of a nested link are cut at a key separator instead of after the class argument's dest: for a class argument with a dotted dest (`sys.model`) the re-declared link names `model.encoder.channels` inside the class parser - instantiate_classes raises and the decoder never gets the encoder's value", fn=tpk, construct=f"nested {which} trimmed by dest prefix")
 
+    # the links handed to a class argument's own parser are THAT argument's nested links: the filter compares the
+    # link's target action with the action asked about (identity) besides the nested test
+    from .util import guard_atoms as _ga16
+
+    act_p = gnl.args.args[1].arg if len(gnl.args.args) > 1 else None
+    apps_ = [c for c in calls_in(gnl) if call_leaf(c) == "append"]
+    ctx.need(act_p and len(apps_) == 1, "get_nested_links(parser, action): links.append(...)")
+    at16 = _ga16(apps_[0], stop=gnl)
+    own = any(pol and isinstance(t, ast.Compare) and len(t.ops) == 1 and isinstance(t.ops[0], (ast.Is, ast.Eq)) and {ast.unparse(t.left).endswith(".target[1]"), ast.unparse(t.comparators[0]) == act_p} == {True} for t, pol in at16) or any(pol and isinstance(t, ast.Compare) and len(t.ops) == 1 and isinstance(t.ops[0], (ast.Is, ast.Eq)) and ast.unparse(t.comparators[0]).endswith(".target[1]") and ast.unparse(t.left) == act_p for t, pol in at16)
+    nested_t = any(pol and isinstance(t, ast.Call) and call_leaf(t) == "is_nested_instantiation_link" for t, pol in at16)
+    ctx.oblige("C16.b", own and nested_t, apps_[0], "a class argument's parser receives the nested links whose target is that argument" if own and nested_t else "get_nested_links hands every nested link of the parser to every class argument: with two subclass-typed arguments the link declared below one of them is re-declared, with keys trimmed by the wrong prefix, on the other one's class parser - instantiate_classes raises ValueError, or applies a link that was never declared", fn=gnl, construct="nested links of this argument only")
+
+    # a target nested below another target must be built first: the edge <target> -> <prefix> is added for EVERY proper
+    # prefix of the target that is itself a target, starting with the first component
+    pref_loops = [n_ for n_ in walk_local(iof) if isinstance(n_, ast.For) and isinstance(n_.iter, ast.Call) and call_leaf(n_.iter) == "range" and any(call_leaf(c) == "add_edge" for c in calls_in(n_))]
+    ctx.need(len(pref_loops) == 1, "instantiation_order: `for num in range(len(parts) - 1)` loop adding prefix edges")
+    rg = pref_loops[0].iter
+    parts_txt = None
+    okr = False
+    if len(rg.args) in (1, 2):
+        up = rg.args[-1]
+        start_ok = len(rg.args) == 1 or (isinstance(rg.args[0], ast.Constant) and rg.args[0].value == 0)
+        okr = start_ok and isinstance(up, ast.BinOp) and isinstance(up.op, ast.Sub) and isinstance(up.right, ast.Constant) and up.right.value == 1 and isinstance(up.left, ast.Call) and call_leaf(up.left) == "len"
+        if okr:
+            parts_txt = ast.unparse(up.left.args[0])
+            nv = pref_loops[0].target.id if isinstance(pref_loops[0].target, ast.Name) else ""
+            joins = [x for x in ast.walk(pref_loops[0]) if isinstance(x, ast.Subscript) and ast.unparse(x.value) == parts_txt and isinstance(x.slice, ast.Slice)]
+            okr = bool(joins) and all(x.slice.lower is None and isinstance(x.slice.upper, ast.BinOp) and isinstance(x.slice.upper.op, ast.Add) and {ast.unparse(x.slice.upper.left), ast.unparse(x.slice.upper.right)} == {nv, "1"} for x in joins)
+    ctx.oblige("C16.a", okr, rg, "every proper prefix of a target key (from its first component on) is tried as a parent target" if okr else f"`{ast.unparse(rg)}` does not enumerate every proper prefix of the target key: the edge from a nested target to its parent target (root.child -> root) is lost, and a class group is built before the component that a link feeds into its nested parameter", fn=iof, construct="all proper prefixes")
+
     # ---------------- C16.f ---------------------------------------------------
     # links between init args of one nested class are re-declared on the per-class parser (get_class_parser),
     # whatever else that parser needs: without them the nested components are built in declaration order
